@@ -99,6 +99,10 @@ func canonBin(t *Term) *Term {
 		return t
 	}
 	l, r := t.Args[0], t.Args[1]
+	if (t.Name == "==" || t.Name == "!=") && r.Op == "const" && r.Name == `""` {
+		// s == "" is len(s) == 0
+		return &Term{Op: "bin", Name: t.Name, V: t.V, Args: []*Term{{Op: "len", V: nil, Args: []*Term{l}}, mkConst(big.NewInt(0), nil)}}
+	}
 	if cmpOps[t.Name] {
 		if _, _, ok := intKind(termType(l)); !ok {
 			if _, _, ok2 := intKind(termType(r)); !ok2 && l.Op != "len" && l.Op != "cap" {
@@ -147,10 +151,19 @@ func canonBin(t *Term) *Term {
 			}
 		}
 	}
-	// W − LeadingZeros(x) = Len(x)
+	// c − LeadingZeros(x) = Len(x) + (c − W)
 	if t.Name == "-" && r.Op == "call" && r.Name == "math/bits.LeadingZeros" {
-		if w, ok := isConstInt(l); ok && w.Int64() == int64(WordBits) {
-			return &Term{Op: "call", Name: "math/bits.Len", V: t.V, Args: r.Args}
+		if w, ok := isConstInt(l); ok {
+			ln := &Term{Op: "call", Name: "math/bits.Len", V: t.V, Args: r.Args}
+			d := w.Int64() - int64(WordBits)
+			switch {
+			case d == 0:
+				return ln
+			case d < 0:
+				return &Term{Op: "bin", Name: "-", V: t.V, Args: []*Term{ln, mkConst(big.NewInt(-d), nil)}}
+			default:
+				return &Term{Op: "bin", Name: "+", V: t.V, Args: []*Term{ln, mkConst(big.NewInt(d), nil)}}
+			}
 		}
 	}
 	// sums are sorted and flattened; the ring identities used hold modulo 2^n as well, so unsigned values qualify
